@@ -94,6 +94,11 @@ def _nonlin_solver(fcn, x0, params,
     best_dxnorm = x.norm()
     best_iter = 0
     for i in range(maxiter):
+        if y_norm == 0:
+            # the current iterate is an exact root, no further step can be made
+            converge = True
+            break
+
         tol = min(eta, eta * y_norm)
         dx = -jacobian.solve(y, tol=tol)
 
